@@ -485,6 +485,10 @@ func (s *segment) Replace(old *segment) error {
 	s.writer = log
 	s.reader = log
 	s.closed = false
+	// close() above also sealed the segment. It is open again and, if it is
+	// the active segment (truncation), must notify its waiters when it is
+	// sealed for real on the next roll.
+	s.sealed = false
 	old.replaced = true
 	return s.setupIndex()
 }
